@@ -3,6 +3,46 @@ import random, collections
 import common, fragcheck, fraggen, widegen
 
 
+def avoid_document(rng):
+    """small blocks with many avoided breaks and out-of-flow boxes between in-flow siblings (exercises
+    find_earlier_page_break and remove_placeholders)"""
+    g = widegen.G(rng, set())
+    H = rng.choice([30, 40, 50, 60])
+    parts = []
+
+    def seq(depth):
+        out = []
+        for _ in range(rng.choice([2, 3, 4, 6])):
+            r = rng.random()
+            if r < 0.2:
+                ws = g.words(1); g.leaf(ws, 'float', ['avoid', 'float'])
+                out.append('<div style="float:%s;width:72px">%s</div>' % (rng.choice(['left', 'right']), ws[0]))
+            elif r < 0.35:
+                ws = g.words(1); g.leaf(ws, 'abs', ['avoid', 'abs'])
+                out.append('<div style="position:absolute;right:0">%s</div>' % ws[0])
+            elif r < 0.45 and depth < 2:
+                st = []
+                if rng.random() < 0.3: st.append('break-inside:avoid')
+                if rng.random() < 0.3: st.append('break-before:avoid')
+                out.append('<div style="%s">%s</div>' % (';'.join(st), seq(depth + 1)))
+            else:
+                nw = rng.choice([1, 1, 2, 3])
+                ws = g.words(nw); g.leaf(ws, 'para', ['avoid'])
+                st = []
+                if rng.random() < 0.45: st.append('break-before:avoid')
+                if rng.random() < 0.15: st.append('break-after:avoid')
+                if rng.random() < 0.3: st.append('break-inside:avoid')
+                if rng.random() < 0.3:      # a fixed height never smaller than the content
+                    st.append('height:%dpx' % rng.choice([h for h in (10, 20, 30) if h >= 10 * nw]))
+                    # floats can still push its lines below the page bottom: sanctioned clipping (R4 of DESIGN.md)
+                    g.leaves[-1]['fixed_height'] = True
+                out.append('<p style="%s">%s</p>' % (';'.join(st), '<br>'.join(ws)))
+        return ''.join(out)
+    html = ('<style>@page{size:200px %dpx; margin:0} html{font-family:weasyprint;font-size:10px;line-height:10px}'
+            'body{margin:0} p{margin:0}</style>' % H) + seq(0)
+    return html, g.leaves, H
+
+
 def check(run):
     rng = random.Random(run.seed * 7919 + 1)
     thorough = run.tier == 'thorough'
@@ -40,6 +80,7 @@ def check(run):
     # ---- stream 2: wide grammar, per-element conservation judged on implementation output (Python monitor)
     docs = fragcheck.wide_stream(run, rng, 2500 if thorough else 400, 'c01wide',
                                  feats=widegen.ALL_FEATS)
+    docs += fragcheck.wide_stream(run, rng, 2000 if thorough else 400, 'c01avoid', docs=[avoid_document(rng) for _ in range(2000 if thorough else 400)])
     kinds = collections.Counter()
     nontrivial = []
     for html, leaves, H, pages in docs:
